@@ -15,7 +15,7 @@ def log(*a):
 class Harness:
     """one harness = one entry function explored symbolically"""
     def __init__(self, name, pkg, files, models=('std', 'crypto'), summaries=(), panic_mode='ignore', sched=False,
-                 bounds='', load=None, timeout_s=600, go_mode='ignore', setup=None, must_reach=(), assumptions=(), split_depth=None, crypto_mode='alg', unwind=None, salt_retries=False):
+                 bounds='', load=None, timeout_s=1500, go_mode='ignore', setup=None, must_reach=(), assumptions=(), split_depth=None, crypto_mode='alg', unwind=None, salt_retries=False):
         self.name = name            # Go function name
         self.pkg = pkg              # package dir relative to the module root, e.g. 'cashu'
         self.files = list(files)    # harness sources under /verif/harness/<pkg>/
